@@ -13,7 +13,8 @@ Inductive case :=
 | CHist (init : obj) (ops : list op) (observed : list obs)
 | CSort (elems : list (option val)) (cmp : Z) (observed : list (option val))
 | CStr (m : Z) (s : list Z) (args : list val) (observed : option (list Z))      (* None = Go panic / error *)
-| CCtor (args : list val) (observed : outcome).
+| CCtor (args : list val) (observed : outcome)
+| CLoc (cs cn cb : Z) (init : obj) (observed : outcome * list (list val)).
 
 Definition oval_eqb := option_eqb val_eqb.
 Definition rv_eqb (a b : rv) : bool :=
@@ -56,6 +57,13 @@ Definition verdict (c : case) : Z * Z :=
       match str_spec m s args, str_model m s args with
       | Some sp, Some mo => judge (option_eqb zlist_eqb) observed mo (Some sp) 0
       | _, _ => declined
+      end
+  | CLoc cs cn cb init observed =>
+      let sp := run_locale es5 (cs, cn, cb) init in
+      let mo := run_locale otto (cs, cn, cb) init in
+      match fst sp with
+      | Thrown (-1) => declined
+      | _ => judge (fun a b => outcome_eqb (fst a) (fst b) && list_eqb (list_eqb val_eqb) (snd a) (snd b)) observed mo sp 0
       end
   | CCtor args observed =>
       match ctor_spec args, ctor_model args with
